@@ -3,6 +3,7 @@ import LoraVerif.Props.TieA.C08
 import LoraVerif.Props.TieA.Band
 import LoraVerif.Props.TieA.Rx1Offset
 import LoraVerif.Props.TieA.NewChannel
+import LoraVerif.Props.TieA.HandleMacs
 /-!
 # C08 — the module `./check C08` builds: the property theorems (`Props/C08.lean`) together with the
 tie-A equalities between the hand model's constants and the items regenerated from the current
